@@ -159,6 +159,9 @@ def recipes():
         Recipe("roc_curve_data", g_prob, lambda x, **k: P.roc_curve_data(x[0], x[1], [0, 0.25, 0.5, 0.75, 1], **k), lazy=False, weights=True, kind="ratio", obs_extra=True),
         Recipe("binary_discretise_proportion", g_point, lambda x, **k: PR.binary_discretise_proportion(x[0], [1, 2], ">=", **k)),
         Recipe("contingency_table", g_point, lambda x, **k: K.ThresholdEventOperator().make_contingency_manager(x[0], x[1], event_threshold=2).transform(**k).get_table(), lazy=False, obs_extra=True),
+        Recipe("contingency_table_two_step", g_point,
+               lambda x, **k: K.BinaryContingencyManager(*K.ThresholdEventOperator().make_event_tables(x[0], x[1], event_threshold=2)).transform(**k).get_table(),
+               lazy=False, obs_extra=True),
         Recipe("crps_for_ensemble", g_ens, lambda x, **k: P.crps_for_ensemble(x[0], x[1], "m", include_components=True, **k), fixed=[], weights=True, specific=["m"], fwd_weights=True),
         Recipe("crps_for_ensemble_fair", g_ens, lambda x, **k: P.crps_for_ensemble(x[0], x[1], "m", method="fair", **k), weights=True, specific=["m"], fwd_weights=True),
         Recipe("tail_tw_crps_for_ensemble", g_ens, lambda x, **k: P.tail_tw_crps_for_ensemble(x[0], x[1], "m", 2.0, **k), weights=True, specific=["m"], fwd_weights=True),
